@@ -91,6 +91,13 @@ class DiffBaseStorage(conventions.StorageKeyMarkingConvention,
             except TypeError:
                 pass
 
+        # The extra fields can bring the annotations back as a whole (e.g. for ``metadata.annotations``).
+        # Kopf's own annotations and those of other Kopf-based operators must never be a part of it.
+        annotations = essence.get('metadata', {}).get('annotations', {})
+        for annotation in list(annotations):
+            if any(annotation.startswith(f'{prefix}/') for prefix in ignored_prefixes):
+                del annotations[annotation]
+
         self.remove_empty_stanzas(cast(bodies.BodyEssence, essence))
 
         # Remove ignored fields if specified
